@@ -6,6 +6,16 @@ VERIF = os.path.dirname(os.path.dirname(os.path.abspath(__file__)))
 
 # id -> (level category, technique, level text, level note, design ref)
 CHECKS = {
+    "C18": ("exploration",
+            "differential testing across build configurations: the same seeded corpus through three builds of the harness (default, nightly, nightly+simd_backend); transcripts compared line by line, each build also cross-checked with libsodium and across container types",
+            "About 10k cases per build (generic hash at every length with chunkings, SHA-512, HMAC, kdf sweep, kx, X25519, box, sealed-box nonce derivation, signatures, Argon2 grid, container axis) must produce identical outputs in the three configurations and equal libsodium in each; a difference names the first diverging case id and builds.",
+            "Only the three configurations that build on this image; third-party crates' own SIMD backends are not varied.",
+            "DESIGN.md §3 C18"),
+    "C20": ("exploration",
+            "program generation from the type-state table (plus random valid transition chains) judged by the compiler: forbidden programs must fail with the primary error on the marked line, permitted controls must compile and run",
+            "A model written from the documentation labels each generated program; rustc's verdict and diagnostics are the oracle. Every forbidden program has a control that differs only in the state reached and must compile and run, so a rejection cannot come from an unrelated typo. The enumerated table is visited completely.",
+            "rustc nightly as installed is the judge; cells neither listed as misuse nor documented as permitted are recorded, not judged.",
+            "DESIGN.md §3 C20"),
     "C16": ("exploration",
             "enumeration of payload lengths x object types x formats x containers (round-trip + still-decrypts oracle) and the complete wrong-length table (count 0..=2N for each fixed N, four encodings, nested documents)",
             "Every object type is pushed through to_bytes/from_bytes, into_parts/from_parts, serde_json (three entry points), bincode (two) and serde's value deserializers for both visitor paths, for every payload length 0..=L; the decoded object must equal the original and still decrypt/verify; to_bytes must equal libsodium's layout; every wrong-length encoding of a fixed-length container must be an error, never padding, truncation or a panic.",
@@ -125,7 +135,7 @@ def main():
           for p in props if p not in CHECKS]
     m = {
         "version": 1,
-        "setup_cmd": "./check --build all && (cd /verif/fuzz 2>/dev/null && ./build.sh || true)",
+        "setup_cmd": "./check --build all",
         "hooks": {
             "guard": "cargo feature verif_hooks",
             "enable": "harness crate depends on dryoc (path /repo) with features serde,base64,verif_hooks (+nightly / +nightly,simd_backend for the other two build configurations)",
